@@ -74,8 +74,12 @@ func report(eng *Engine, prop, tier string, seed int, start time.Time, runs []*R
 	var vanished []string
 	if *flagFn == "" {
 		for _, n := range expected {
-			if strings.Contains(n, "/safe:") || strings.Contains(n, "/frame:") {
-				continue // a panic-freedom obligation that no longer exists has nothing left to check
+			if strings.Contains(n, "/safe:") || strings.Contains(n, "/frame:") || strings.Contains(n, "/call:") ||
+				strings.Contains(n, "/fsframe:") || strings.Contains(n, "/crashinv:") || (strings.Contains(n, "/ensures:") && strings.Contains(n, "@")) {
+				// obligations attached to an instruction on behalf of the instruction itself (panic freedom, a callee's precondition, the path
+				// frame / crash invariant / failure clause at one primitive): when the instruction is gone there is nothing left to check.
+				// Clauses the *function* owes at a site (site:, send:, go:), its postconditions, loops and lemmas must not vanish.
+				continue
 			}
 			if !have[n] {
 				vanished = append(vanished, n)
